@@ -101,6 +101,24 @@ def do_replay(prop, pid, path):
 RESIDUALS: dict = {}
 
 
+def discharge_grouped(obs, budget, sd):
+    """Alternative proofs of one clause: the peeled parts first; the `whole` form is only attempted for clauses some part of which stayed open."""
+    has_parts = {o.group for o in obs if o.group and o.role == "part"}
+    first = [k for k, o in enumerate(obs) if not (o.role == "whole" and o.group in has_parts)]
+    res = [None] * len(obs)
+    for k, r in zip(first, solve.discharge([obs[k] for k in first], budget, sd)):
+        res[k] = r
+    open_groups = {obs[k].group for k in first if obs[k].role == "part" and res[k]["verdict"] != "proved"}
+    second = [k for k, o in enumerate(obs) if res[k] is None and o.group in open_groups]
+    if second:
+        for k, r in zip(second, solve.discharge([obs[k] for k in second], budget, sd)):
+            res[k] = r
+    for k in range(len(obs)):
+        if res[k] is None:
+            res[k] = {"verdict": "unknown", "reason": "not attempted: every peeled part of the clause was discharged", "time": 0.0, "backend": "-"}
+    return res
+
+
 def collapse_groups(obs, results):
     """Alternative proofs of one clause (whole / peeled parts): the clause is discharged when the whole is proved or all parts
     are; otherwise it is represented by its `whole` obligation with that verdict.  Parts are never reported on their own."""
@@ -154,6 +172,8 @@ def obligation_selected(prop, name: str) -> bool:
 
 def run_property(prop, pid, tier, seed, args, t0):
     budget = float(os.environ.get("VERIF_TIMEOUT", "20" if tier == "quick" else "60"))
+    if tier != "quick":
+        solve.USE_CACHE[0] = False  # thorough: every obligation is discharged afresh (and under two seeds)
     functions = list(getattr(prop, "FUNCTIONS", []))
     exclude = getattr(prop, "EXCLUDE_CLAUSES", ())
     known, fixed = load_known()
@@ -167,7 +187,7 @@ def run_property(prop, pid, tier, seed, args, t0):
     seeds = [seed] if tier == "quick" else [seed, seed + 1]
     results = None
     for sd in seeds:
-        res = solve.discharge(obs, budget, sd)
+        res = discharge_grouped(obs, budget, sd)
         if results is None:
             results = res
         else:
@@ -302,6 +322,16 @@ def run_property(prop, pid, tier, seed, args, t0):
         cand = [(o, r) for o, r in undecided if norm_name(o.name) in baseline]
         if cand:
             again = solve.discharge([o for o, _ in cand], budget * 3, seed + 7)
+            for extra_seed in (seed + 11, seed + 13):
+                # a proof that exists but is found late by the first strategy must not turn into an alarm on a busy machine:
+                # whatever is still open is tried under two more seeds before it is reported as no longer dischargeable
+                still = [k for k, r2 in enumerate(again) if r2["verdict"] not in ("proved", "refuted")]
+                if not still or len(still) > 8:
+                    break
+                more = solve.discharge([cand[k][0] for k in still], budget * 3, extra_seed)
+                for k, r3 in zip(still, more):
+                    if r3["verdict"] in ("proved", "refuted"):
+                        again[k] = r3
             for (o, r), r2 in zip(cand, again):
                 if r2["verdict"] == "proved":
                     undecided.remove((o, r))
